@@ -158,6 +158,8 @@ class Monitor(object):
                     return 'event %d rejected by a listener of pool %d was re-buffered by another pool' % (vid, pi)
                 if not any(int(x.split()[1]) == pi and int(x.replace('%Z', '').split()[2]) == vid for x in reb):
                     return 'event %d rejected by a listener of pool %d was not returned to its queue' % (vid, pi)
+                if op[0] in ('feed', 'finish') and (not post[pi][0] or post[pi][0][0] != vid):
+                    return 'event %d rejected by a listener of pool %d is not at the head of its queue' % (vid, pi)
         if op[0] == 'feed':
             for pj in range(n):
                 if pj != op[1] and post[pj] != pre[pj]:
@@ -244,6 +246,16 @@ def _run(chk, wd, proved):
             chk.violation({'kind': 'the implementation breaks the event distribution property on this history',
                            'case': m, 'monitor': verdict})
 
+    # ---- corpus of earlier minimized histories, first
+    import os
+    cdir = os.path.join(vlib.VERIF, 'corpus', 'C09')
+    if os.path.isdir(cdir):
+        for fn in sorted(os.listdir(cdir)):
+            if fn.endswith('.json'):
+                with open(os.path.join(cdir, fn)) as f:
+                    c = json.load(f)
+                add([tuple(x) for x in c['pools']], _unjs(c['ops']), hk=c.get('handler', 0), gserial=c.get('gserial', -1), tag='corpus')
+
     # ---- exhaustive: every operation sequence of depth d after the READY setup, on a grid of configurations
     grid = []
     for subs0, subs1 in [(SUBS[3], SUBS[0]), (SUBS[5], SUBS[6]), (SUBS[1], SUBS[2]), (SUBS[0], SUBS[10])]:
@@ -260,11 +272,13 @@ def _run(chk, wd, proved):
     alpha.append(['feed', 0, 0, b'garbage'])
     alpha.append(['finish', 0, 0, b'', B])
     alpha.append(['dispatch', 0, [[['again'], ['again']]]])
-    depth = 3 if quick else 4
+    depth = 3
     for cfgs in grid:
         setup = ready_setup(cfgs)
         for seq in itertools.product(alpha, repeat=depth):
             if quick and rng.random() < 0.85:
+                continue
+            if not quick and cfgs[0][1] in (0, 3) and rng.random() < 0.7:
                 continue
             add(cfgs, setup + [['emit', 'ProcessStateRunningEvent'], ['emit', 'Tick5Event']] + list(seq), tag='exh')
             chk.dist('exh')
@@ -305,7 +319,7 @@ def _run(chk, wd, proved):
             else:
                 ops.append(['finish', pi, i, rng.choice([b'', b'', b'RESULT 2\nOK', b'junk']), rng.choice([B, ['epipe']])])
         return ops
-    nrand = 700 if quick else 15000
+    nrand = 700 if quick else 8000
     for _ in range(nrand):
         cfgs = rand_cfgs()
         add(cfgs, rand_ops(cfgs, rng.randrange(5, 22)), hk=rng.choice([0, 0, 1]), tag='rand')
@@ -372,7 +386,8 @@ def _run(chk, wd, proved):
     cov['distinct_nontrivial'] = len(distinct)
     cov['exhaustive'] = False
     cov['rule'] = ('%d histories: %d from the exhaustive part (every sequence of %d operations over %d operation kinds after a '
-                   'READY setup plus two emitted events, on %d two-pool configurations; quick tier samples 15%% of them), %d random '
+                   'READY setup plus two emitted events, on %d two-pool configurations; quick tier samples 15%% of them, thorough all of '
+                   'buffer sizes 1-2 and 30%% of 0 and 3), %d random '
                    'histories of 5-21 operations on 1-3 pools (12 subscription lists incl. type+supertype, duplicates, empty; '
                    'buffer sizes 0-4; 1-3 listeners; equal and different priorities), 40+ histories starting just below maxint; '
                    'distinct = distinct (operation kind, effect kinds) combinations observed'
